@@ -144,6 +144,8 @@ func c17(e *Env) {
 			ob2.OK(g.Where(streamSend[0]), "CreateFifo ≺ Send per streaming output; loop over all outputs completed ≺ go Execute")
 		}
 	}
+	// ---- R2b the directory of the pipe exists before mkfifo
+	e.c17FifoDir()
 	// ---- R3
 	e.fifoRemovedRule("R3")
 	// ---- R4 exemptions in Execute
@@ -272,5 +274,87 @@ func (e *Env) fifoRemovedRule(rule string) {
 	}
 	if n3 == 0 {
 		ob3.Fail(core.FuncName(a.procRun), "the FIFO of a streaming output is never removed")
+	}
+}
+
+// c17FifoDir: when the IP streams, the directory that is created before the pipe is made is the pipe's own
+// directory (Dir(FifoPath)): the FIFO lives at its final place, not below the task's temp dir, so creating
+// Dir(TempPath) instead makes mkfifo fail for an output whose directory does not exist yet (and leaves stray
+// __parent__/__fsroot__ directories behind).
+func (e *Env) c17FifoDir() {
+	r := e.R
+	p := e.P
+	ob := r.Ob("R2", "CreateFifo:MkdirAll(Dir(FifoPath))≺mkfifo", "before the pipe of a streaming IP is created, the directory of its FIFO path has been created on all paths")
+	cf := p.Func("FileIP.CreateFifo")
+	if cf == nil {
+		ob.Unknown("-", "(*FileIP).CreateFifo not found")
+		return
+	}
+	g := e.XG(cf)
+	if g == nil {
+		return
+	}
+	fsy := e.fsym()
+	const (
+		evCalc core.Bits = 1 << iota
+		evDir
+	)
+	isFifoDirSym := func(z *core.Sym) bool {
+		hit := false
+		z.Walk(func(w *core.Sym) bool {
+			if w.Op == "call" && w.Name == "path/filepath.Dir" && len(w.Args) == 1 && strings.Contains(w.Args[0].String(), fnFifoPath+"(") {
+				hit = true
+			}
+			return !hit
+		})
+		return hit
+	}
+	isCalc := func(n *core.Node) bool {
+		return n.Kind != core.KAfter && n.IsCallTo("path/filepath.Dir") && strings.Contains(fsy.InCtx(n.Ctx, n.Call.Args[0]).String(), fnFifoPath+"(")
+	}
+	isDir := func(n *core.Node) bool {
+		return n.Kind != core.KAfter && n.IsCallTo("os.MkdirAll", "os.Mkdir") && isFifoDirSym(fsy.InCtx(n.Ctx, n.Call.Args[0]))
+	}
+	isMkfifo := func(n *core.Node) bool {
+		if n.Kind == core.KAfter || n.Call == nil {
+			return false
+		}
+		if n.IsCallTo("syscall.Mkfifo", "golang.org/x/sys/unix.Mkfifo") {
+			return true
+		}
+		if !n.IsCallTo("os/exec.Command") {
+			return false
+		}
+		for _, a := range n.Call.Args {
+			if strings.Contains(fsy.InCtx(n.Ctx, a).String(), "mkfifo") {
+				return true
+			}
+		}
+		return false
+	}
+	mks := g.Select(isMkfifo)
+	if len(mks) == 0 {
+		ob.Unknown(core.FuncName(cf), "no mkfifo command / syscall found in CreateFifo's call tree")
+		return
+	}
+	res := g.Run(core.Scenario{Start: g.Entry, AtEntry: true, FieldLoad: e.assumeStream(true)})
+	must := res.Must(func(n *core.Node) core.Transfer {
+		switch {
+		case isCalc(n):
+			return core.Transfer{Gen: evCalc}
+		case isDir(n):
+			return core.Transfer{Gen: evDir}
+		}
+		return core.Transfer{}
+	})
+	for _, m := range mks {
+		if res.Reaches(func(x *core.Node) bool { return x == m }) == nil {
+			continue
+		}
+		okM := must[m]&evDir != 0 && must[m]&evCalc != 0
+		ob.Check(okM, g.Where(m), "Dir(FifoPath) computed and created before mkfifo (streaming flag set)", "with the streaming flag set, mkfifo can be reached without the directory of the FIFO path having been created (the directory created is that of the temp path): for a streaming output in a not yet existing directory, or with ../ or an absolute path, the pipe cannot be made")
+	}
+	if ob.Sites == 0 {
+		ob.Unknown(core.FuncName(cf), "mkfifo not reachable with the streaming flag set")
 	}
 }
